@@ -592,6 +592,89 @@ func rulePairAlive(w *World, r *RuleResult) {
 	d.flush()
 }
 
+func init() {
+	register(&Rule{Name: "DEATH.exact", Min: 1, Doc: "after executing a task a warrior stays alive only under a test that its queue is not empty", Run: ruleDeathExact})
+}
+
+// ruleDeathExact: "a warrior dies exactly when its queue becomes empty".
+// DEATH.report and PAIR.alive look at the paths that mark a warrior dead; this
+// is the other half: a path that has executed one of the warrior's tasks and
+// goes on without marking it dead must have looked at the queue after the
+// execution and found it non-empty — whatever else the executor reports.
+func ruleDeathExact(w *World, r *RuleResult) {
+	c := newSimCtx(w)
+	if len(c.a.Err) > 0 || c.a.Exec == nil || c.a.QueueT == nil {
+		r.undecided("anchors", "-", strings.Join(c.a.Err, "; "))
+		return
+	}
+	ws := w.EnumValues("WarriorState")
+	qn := "*" + c.a.QueueT.Obj().Name()
+	q := resolveQueue(w, c)
+	d := newDedup(r)
+	n := 0
+	for _, fn := range w.CallerRoots(c.a.Exec) {
+		paths, err := w.Paths(fn)
+		if err != nil {
+			continue
+		}
+		for _, p := range paths {
+			if p.End != "backedge" && p.End != "ret" {
+				continue
+			}
+			ex := -1
+			for i := range p.Events {
+				if p.Events[i].Kind == "call" && p.Events[i].Callee == c.a.Exec {
+					ex = i
+				}
+			}
+			if ex < 0 {
+				continue
+			}
+			n++
+			dead := false
+			var lens []*T
+			for i := ex + 1; i < len(p.Events); i++ {
+				e := &p.Events[i]
+				if e.Kind == "store" && e.LV.Op == "sel" && e.LV.S == c.a.StateField && e.Val.IsConst() && ws[e.Val.C] == "WarriorDead" {
+					dead = true
+				}
+				// a look at the queue: its length method, or the length field itself
+				if e.Kind == "call" && e.Callee != nil && e.Res != nil && e.Callee.Signature.Recv() != nil && typeName(e.Callee.Signature.Recv().Type()) == qn && w.isPure(e.Callee) && isInteger(e.Res.Ty) {
+					lens = append(lens, e.Res)
+				}
+				if e.Kind == "load" && q.err == "" {
+					if recv, ok := selOf(e.LV, q.length); ok && typeName(recv.Ty) == qn {
+						lens = append(lens, e.LV)
+					}
+				}
+			}
+			if dead {
+				continue
+			}
+			nonEmpty := hasCond(p, func(a *T, v bool) bool {
+				for _, l := range lens {
+					lk := l.Key()
+					is := func(t *T) bool { return stripConv(t).Key() == lk }
+					switch {
+					case a.Op == "eq" && !v && ((is(a.A[0]) && a.A[1].IsConstVal(0)) || (is(a.A[1]) && a.A[0].IsConstVal(0))):
+						return true
+					case a.Op == "lt" && v && a.A[0].IsConstVal(0) && is(a.A[1]):
+						return true
+					case a.Op == "lt" && !v && is(a.A[0]) && a.A[1].IsConstVal(1):
+						return true
+					}
+				}
+				return false
+			})
+			d.add(nonEmpty, fn.Name()+"/alive-needs-tasks", c.posOf(&p.Events[ex]), "the warrior stays alive after an execution only where its queue was found non-empty", "after executing a task the warrior is kept alive on a path that has not found its queue non-empty: a warrior whose last task ended (DAT, division by zero) without a new one being queued is not marked dead in that cycle")
+		}
+	}
+	if n == 0 {
+		r.undecided("sites", "-", "no path executes a task")
+	}
+	d.flush()
+}
+
 func ruleDeathReport(w *World, r *RuleResult) {
 	c := newSimCtx(w)
 	if len(c.a.Err) > 0 {
@@ -801,6 +884,90 @@ func ruleSchedLoop(w *World, r *RuleResult) {
 		earlyFound = true
 	}
 	d.add(earlyFound, "early-return/exists", w.Pos(fn.Pos()), "the cycle ends as soon as a death leaves a single survivor among several warriors", "no path ends the cycle when a death leaves a single survivor: the survivor (or later warriors) still execute in a battle that is already decided, so a round can end with nobody alive")
+	d.flush()
+}
+
+func init() {
+	register(&Rule{Name: "RUN.result", Min: 2, Doc: "Run returns one flag per added warrior; nil only when no warrior was added", Run: ruleRunResult})
+}
+
+// ruleRunResult: whatever the state of the battle (never started, finished,
+// just reset), Run answers with one aliveness flag per added warrior; the
+// only nil answer is for a simulator without warriors.
+func ruleRunResult(w *World, r *RuleResult) {
+	c := newSimCtx(w)
+	if c.a.Run == nil || c.a.WarriorsField == "" {
+		r.undecided("anchors", "-", "Run / warrior list unresolved")
+		return
+	}
+	fn := c.a.Run
+	paths, err := w.Paths(fn)
+	if err != nil {
+		r.undecided(fn.Name(), w.Pos(fn.Pos()), err.Error())
+		return
+	}
+	isCount := func(t *T) bool {
+		t = stripConv(t)
+		return c.isRecvField(t, c.a.CountField) || (t.Op == "len" && c.isRecvField(t.A[0], c.a.WarriorsField))
+	}
+	// the length of a result: make(_, n) here, or in a module function the count is handed to
+	var resultLen func(f *ssa.Function, t *T, depth int) (*T, bool)
+	resultLen = func(f *ssa.Function, t *T, depth int) (*T, bool) {
+		t = stripConv(t)
+		switch {
+		case t.Op == "makeslice":
+			return t.A[0], true
+		case t.Op == "call" && depth < 3:
+			g := w.funcByKey(t.S)
+			if g == nil || len(g.Blocks) == 0 || len(t.A) != len(g.Params) {
+				return nil, false
+			}
+			gps, err := w.Paths(g)
+			if err != nil {
+				return nil, false
+			}
+			var out *T
+			for _, gp := range gps {
+				if gp.End != "ret" || len(gp.Ret) != 1 {
+					continue
+				}
+				n, ok := resultLen(g, gp.Ret[0], depth+1)
+				if !ok {
+					return nil, false
+				}
+				n = stripConv(n)
+				if n.Op == "p" {
+					for k, prm := range g.Params {
+						if prm.Name() == n.S {
+							n = t.A[k]
+						}
+					}
+				}
+				if out != nil && !sameTerm(out, n) {
+					return nil, false
+				}
+				out = n
+			}
+			return out, out != nil
+		}
+		return nil, false
+	}
+	d := newDedup(r)
+	for _, p := range paths {
+		if p.End != "ret" || len(p.Ret) != 1 {
+			continue
+		}
+		ret := stripConv(p.Ret[0])
+		if ret.Op == "nil" {
+			empty := hasCond(p, func(a *T, v bool) bool {
+				return a.Op == "eq" && v && ((isCount(a.A[0]) && a.A[1].IsConstVal(0)) || (isCount(a.A[1]) && a.A[0].IsConstVal(0)))
+			})
+			d.add(empty, "nil-only-when-empty", w.Pos(fn.Pos()), "nil is returned only when no warrior has been added", "Run returns nil on a path that has not established that the warrior list is empty: a battle that never started, is over or was just reset must still be answered with one flag per warrior")
+			continue
+		}
+		n, ok := resultLen(fn, ret, 0)
+		d.add(ok && isCount(n), "one-per-warrior", w.Pos(fn.Pos()), "the result has one element per added warrior", "Run returns "+ret.Show()+", which is not a list with one element per added warrior")
+	}
 	d.flush()
 }
 
@@ -1477,6 +1644,124 @@ func init() {
 	register(&Rule{Name: "REFUSE.pure", Min: 2, Doc: "a call that returns an error has not changed any state", Run: ruleRefusePure})
 }
 
+// recModel: how the state recorder keeps (state, owner) per address — two
+// parallel arrays, or one array of two-field cells — and what its size is.
+type recModel struct {
+	stateF, colorF          string // parallel arrays ([]CoreState, []int)
+	cellF, cStateF, cColorF string // or one array of structs with a CoreState and an int field
+	sizeF                   string // a field holding the core size (may be absent: len of an array)
+}
+
+func resolveRecorder(w *World) (*recModel, bool) {
+	nt := w.NamedType("StateRecorder")
+	if nt == nil {
+		return nil, false
+	}
+	st, ok := nt.Underlying().(*types.Struct)
+	if !ok {
+		return nil, false
+	}
+	m := &recModel{}
+	for i := 0; i < st.NumFields(); i++ {
+		f := st.Field(i)
+		if sl, ok := f.Type().Underlying().(*types.Slice); ok {
+			if typeName(sl.Elem()) == "CoreState" {
+				m.stateF = f.Name()
+			} else if b, ok := sl.Elem().(*types.Basic); ok && b.Kind() == types.Int {
+				m.colorF = f.Name()
+			} else if cs, ok := sl.Elem().Underlying().(*types.Struct); ok {
+				var sf, cf string
+				for k := 0; k < cs.NumFields(); k++ {
+					cfld := cs.Field(k)
+					if typeName(cfld.Type()) == "CoreState" {
+						sf = cfld.Name()
+					} else if b, ok := cfld.Type().(*types.Basic); ok && b.Kind() == types.Int {
+						cf = cfld.Name()
+					}
+				}
+				if sf != "" && cf != "" && cs.NumFields() == 2 {
+					m.cellF, m.cStateF, m.cColorF = f.Name(), sf, cf
+				}
+			}
+		}
+		if typeName(f.Type()) == "Address" {
+			m.sizeF = f.Name()
+		}
+	}
+	parallel := m.stateF != "" && m.colorF != "" && m.sizeF != ""
+	cells := m.cellF != ""
+	if parallel == cells {
+		return nil, false
+	}
+	if cells {
+		m.stateF, m.colorF = "", ""
+	}
+	return m, true
+}
+
+// arrayKind: t is one of the recorder's arrays: "state", "color" or "cell".
+func (m *recModel) arrayKind(t *T) string {
+	for f, k := range map[string]string{m.stateF: "state", m.colorF: "color", m.cellF: "cell"} {
+		if f == "" {
+			continue
+		}
+		if recv, ok := selOf(t, f); ok && typeName(recv.Ty) == "*StateRecorder" {
+			return k
+		}
+	}
+	return ""
+}
+
+// isSize: t is the core size as the recorder knows it: its size field, or the
+// length of one of its arrays (all made with the core size, never replaced).
+func (m *recModel) isSize(t *T) bool {
+	t = stripConv(t)
+	if m.sizeF != "" {
+		if recv, ok := selOf(t, m.sizeF); ok && typeName(recv.Ty) == "*StateRecorder" {
+			return true
+		}
+	}
+	return t.Op == "len" && m.arrayKind(t.A[0]) != ""
+}
+
+type cellWrite struct {
+	idx, val *T
+	ev       *Event
+}
+
+// writes: the last state write and the last owner write of a path, whichever
+// way the cell is stored (element of a parallel array, a whole cell, or one
+// field of a cell).
+func (m *recModel) writes(p *Path) (state, color *cellWrite) {
+	for i := range p.Events {
+		e := &p.Events[i]
+		if e.Kind != "store" {
+			continue
+		}
+		lv := e.LV
+		if lv.Op == "elem" {
+			switch m.arrayKind(lv.A[0]) {
+			case "state":
+				state = &cellWrite{lv.A[1], e.Val, e}
+			case "color":
+				color = &cellWrite{lv.A[1], e.Val, e}
+			case "cell":
+				state = &cellWrite{lv.A[1], mksel(e.Val, m.cStateF, nil), e}
+				color = &cellWrite{lv.A[1], mksel(e.Val, m.cColorF, nil), e}
+			}
+		}
+		if lv.Op == "sel" && lv.A[0].Op == "elem" && m.arrayKind(lv.A[0].A[0]) == "cell" {
+			switch lv.S {
+			case m.cStateF:
+				state = &cellWrite{lv.A[0].A[1], e.Val, e}
+			case m.cColorF:
+				color = &cellWrite{lv.A[0].A[1], e.Val, e}
+			}
+		}
+	}
+	return
+}
+
 func ruleTabRecorder(w *World, r *RuleResult) {
 	c := newSimCtx(w)
 	rep := w.Method("StateRecorder", "Report")
@@ -1484,23 +1769,8 @@ func ruleTabRecorder(w *World, r *RuleResult) {
 		r.undecided("anchors", "-", "StateRecorder.Report not found")
 		return
 	}
-	nt := w.NamedType("StateRecorder")
-	st := nt.Underlying().(*types.Struct)
-	var stateF, colorF, sizeF string
-	for i := 0; i < st.NumFields(); i++ {
-		f := st.Field(i)
-		if sl, ok := f.Type().Underlying().(*types.Slice); ok {
-			if typeName(sl.Elem()) == "CoreState" {
-				stateF = f.Name()
-			} else if b, ok := sl.Elem().(*types.Basic); ok && b.Kind() == types.Int {
-				colorF = f.Name()
-			}
-		}
-		if typeName(f.Type()) == "Address" {
-			sizeF = f.Name()
-		}
-	}
-	if stateF == "" || colorF == "" || sizeF == "" {
+	m, ok := resolveRecorder(w)
+	if !ok {
 		r.undecided("anchors", w.Pos(rep.Pos()), "recorder fields unresolved")
 		return
 	}
@@ -1530,44 +1800,28 @@ func ruleTabRecorder(w *World, r *RuleResult) {
 		return 0, false
 	}
 	rtName := w.EnumValues("ReportType")
-	type stores struct {
-		state, color *Event
-	}
-	collect := func(p *Path) (s stores, other int) {
-		for i := range p.Events {
-			e := &p.Events[i]
-			if e.Kind != "store" || e.LV.Op != "elem" {
-				continue
-			}
-			if _, ok := selOf(e.LV.A[0], stateF); ok {
-				s.state = e
-			} else if _, ok := selOf(e.LV.A[0], colorF); ok {
-				s.color = e
-			} else {
-				other++
-			}
-		}
-		return
+	// the record (want, reporting warrior) written at the reported address
+	recordsAt := func(st, co *cellWrite, want string, isRep func(*T, string) bool) bool {
+		return st != nil && co != nil && stripConv(st.val).IsConstVal(cs[want]) && isRep(co.val, "WarriorIndex") && isRep(st.idx, "Address") && isRep(co.idx, "Address")
 	}
 	seen := map[string]bool{}
 	for _, p := range paths {
 		tv, ok := typeOf(p)
+		st, co := m.writes(p)
 		if !ok {
 			// the residual path for all unlisted types must store nothing
-			s, _ := collect(p)
-			r.check(s.state == nil && s.color == nil, "other-types", w.Pos(rep.Pos()), "report types outside the table leave the record untouched", "a path not specialised to one report type changes the record")
+			r.check(st == nil && co == nil, "other-types", w.Pos(rep.Pos()), "report types outside the table leave the record untouched", "a path not specialised to one report type changes the record")
 			continue
 		}
 		tn := rtName[tv]
 		want, listed := table[tn]
-		s, _ := collect(p)
 		key := tn
 		switch {
 		case tn == "SimReset":
 			called := false
 			for _, e := range p.Events {
 				if e.Kind == "call" && e.Callee != nil && e.Callee.Signature.Recv() != nil {
-					if ok, msg := checkRecorderReset(w, c, e.Callee, stateF, colorF, sizeF, cs); ok {
+					if ok, msg := checkRecorderReset(w, c, e.Callee, m, cs); ok {
 						called = true
 					} else if msg != "" {
 						r.bad("SimReset/body", w.Pos(e.Callee.Pos()), msg)
@@ -1578,25 +1832,14 @@ func ruleTabRecorder(w *World, r *RuleResult) {
 			r.check(called, key, w.Pos(rep.Pos()), "reset report clears every cell to (empty, -1)", "the reset report does not reach a loop that clears every cell")
 			seen[tn] = true
 		case !listed:
-			r.check(s.state == nil && s.color == nil, key, w.Pos(rep.Pos()), "no core cell is touched by this report type", "report type "+tn+" changes the record although it names no core operation")
+			r.check(st == nil && co == nil, key, w.Pos(rep.Pos()), "no core cell is touched by this report type", "report type "+tn+" changes the record although it names no core operation")
 		case tn == "WarriorRead":
-			flag := false
-			for _, cd := range p.Conds {
-				if cd.Atom.Op != "eq" && cd.Val {
-					flag = true
-				}
-				if cd.Atom.Op == "sel" || (cd.Atom.Op == "eq" && false) {
-					flag = cd.Val
-				}
-			}
 			on := hasCond(p, func(a *T, v bool) bool { return a.Op == "sel" && v })
-			_ = flag
 			if on {
-				good := s.state != nil && s.color != nil && s.state.Val.IsConstVal(cs[want]) && isRepField(s.color.Val, "WarriorIndex") && isRepField(s.state.LV.A[1], "Address") && isRepField(s.color.LV.A[1], "Address")
-				r.check(good, key+"/recording", w.Pos(rep.Pos()), "records (CoreRead, warrior) at the reported address", "with read recording on, a read report does not store (CoreRead, warrior index) at the reported address")
+				r.check(recordsAt(st, co, want, isRepField), key+"/recording", w.Pos(rep.Pos()), "records (CoreRead, warrior) at the reported address", "with read recording on, a read report does not store (CoreRead, warrior index) at the reported address")
 				seen[tn] = true
 			} else {
-				r.check(s.state == nil && s.color == nil, key+"/not-recording", w.Pos(rep.Pos()), "reads ignored unless recording is switched on", "a read report changes the record although read recording is off")
+				r.check(st == nil && co == nil, key+"/not-recording", w.Pos(rep.Pos()), "reads ignored unless recording is switched on", "a read report changes the record although read recording is off")
 			}
 		case tn == "WarriorSpawn":
 			// the marking loop, in the handler itself or in a method it hands the report to
@@ -1604,17 +1847,15 @@ func ruleTabRecorder(w *World, r *RuleResult) {
 				if p.End != "backedge" {
 					return false, false
 				}
-				s, _ := collect(p)
-				good = s.state != nil && s.color != nil && s.state.Val.IsConstVal(cs[want]) && isRep(s.color.Val, "WarriorIndex")
-				for _, e := range []*Event{s.state, s.color} {
-					if e == nil {
+				st, co := m.writes(p)
+				good = st != nil && co != nil && stripConv(st.val).IsConstVal(cs[want]) && isRep(co.val, "WarriorIndex")
+				for _, cw := range []*cellWrite{st, co} {
+					if cw == nil {
 						good = false
 						continue
 					}
-					idx := stripConv(e.LV.A[1])
-					if !(idx.Op == "rem" && idx.A[0].Op == "loopvar") {
-						good = false
-					} else if _, ok := selOf(idx.A[1], sizeF); !ok {
+					idx := stripConv(cw.idx)
+					if !(idx.Op == "rem" && idx.A[0].Op == "loopvar" && m.isSize(idx.A[1])) {
 						good = false
 					}
 				}
@@ -1658,15 +1899,14 @@ func ruleTabRecorder(w *World, r *RuleResult) {
 				seen[tn] = true
 			}
 		default:
-			good := s.state != nil && s.color != nil && s.state.Val.IsConstVal(cs[want]) && isRepField(s.color.Val, "WarriorIndex") && isRepField(s.state.LV.A[1], "Address") && isRepField(s.color.LV.A[1], "Address")
 			got := "nothing"
-			if s.state != nil {
-				got = s.state.Val.Show()
-				if s.state.Val.IsConst() {
-					got = w.EnumValues("CoreState")[s.state.Val.C]
+			if st != nil {
+				got = st.val.Show()
+				if v := stripConv(st.val); v.IsConst() {
+					got = w.EnumValues("CoreState")[v.C]
 				}
 			}
-			r.check(good, key, w.Pos(rep.Pos()), "records ("+want+", warrior index) at the reported address", "report "+tn+" records "+got+" instead of ("+want+", warrior index) at the reported address")
+			r.check(recordsAt(st, co, want, isRepField), key, w.Pos(rep.Pos()), "records ("+want+", warrior index) at the reported address", "report "+tn+" records "+got+" instead of ("+want+", warrior index) at the reported address")
 			seen[tn] = true
 		}
 	}
@@ -1680,24 +1920,24 @@ func ruleTabRecorder(w *World, r *RuleResult) {
 	}
 }
 
-func checkRecorderReset(w *World, c *simCtx, fn *ssa.Function, stateF, colorF, sizeF string, cs map[string]int64) (bool, string) {
+func checkRecorderReset(w *World, c *simCtx, fn *ssa.Function, m *recModel, cs map[string]int64) (bool, string) {
 	paths, err := w.Paths(fn)
 	if err != nil {
 		return false, ""
 	}
-	// each of the two arrays is set to its empty value over the whole core: by a
-	// store in a loop that sweeps 0 .. coresize-1, or by clear() when that value is zero
-	sweepOf := func(field string, want int64) (found, good bool, msg string) {
+	// the state and the owner of every address are set to their empty values over the whole
+	// core: by a store in a loop that sweeps 0 .. coresize-1, or by clear() when that value is zero
+	sweepOf := func(which string, want int64) (found, good bool, msg string) {
 		for _, p := range paths {
 			for i := range p.Events {
 				e := &p.Events[i]
 				if e.Kind == "builtin" && e.Method == "clear" && len(e.Args) == 1 {
-					if _, ok := selOf(e.Args[0], field); ok {
+					if k := m.arrayKind(e.Args[0]); k == which || k == "cell" {
 						found = true
 						if want == 0 {
 							good = true
 						} else {
-							msg = "recorder reset zeroes " + field + " although its empty value is not zero"
+							msg = "recorder reset zeroes the " + which + " of every cell although its empty value is not zero"
 						}
 					}
 				}
@@ -1705,20 +1945,16 @@ func checkRecorderReset(w *World, c *simCtx, fn *ssa.Function, stateF, colorF, s
 			if p.End != "backedge" {
 				continue
 			}
-			var st *Event
-			for i := range p.Events {
-				e := &p.Events[i]
-				if e.Kind == "store" && e.LV.Op == "elem" {
-					if _, ok := selOf(e.LV.A[0], field); ok {
-						st = e
-					}
-				}
+			stw, cow := m.writes(p)
+			st := stw
+			if which == "color" {
+				st = cow
 			}
 			if st == nil {
 				continue
 			}
 			found = true
-			ix := stripConv(st.LV.A[1])
+			ix := stripConv(st.idx)
 			li := linearOf(ix)
 			var lv *T
 			for k, at := range li.Atom {
@@ -1726,23 +1962,13 @@ func checkRecorderReset(w *World, c *simCtx, fn *ssa.Function, stateF, colorF, s
 					lv = at
 				}
 			}
-			if !st.Val.IsConstVal(want) || lv == nil {
-				return true, false, "recorder reset stores " + st.Val.Show() + " into " + field + " instead of its empty value at a running index"
+			if !stripConv(st.val).IsConstVal(want) || lv == nil {
+				return true, false, "recorder reset stores " + st.val.Show() + " as the " + which + " instead of its empty value at a running index"
 			}
 			init, step, ok := loopVarInfo(w, fn, p, lv)
 			first0 := ok && init.IsConst() && init.C+li.Const == 0
 			bound := hasCond(p, func(a *T, v bool) bool {
-				if a.Op == "lt" && v && sameTerm(a.A[0], ix) {
-					if _, ok := selOf(a.A[1], sizeF); ok {
-						return true
-					}
-					if l := stripConv(a.A[1]); l.Op == "len" {
-						_, ok1 := selOf(l.A[0], stateF)
-						_, ok2 := selOf(l.A[0], colorF)
-						return ok1 || ok2 // every recorder array has coresize elements
-					}
-				}
-				return false
+				return a.Op == "lt" && v && sameTerm(a.A[0], ix) && m.isSize(a.A[1])
 			})
 			if !(first0 && step == 1 && bound) {
 				return true, false, "recorder reset loop does not run over every address 0 .. coresize-1"
@@ -1751,8 +1977,8 @@ func checkRecorderReset(w *World, c *simCtx, fn *ssa.Function, stateF, colorF, s
 		}
 		return
 	}
-	f1, g1, m1 := sweepOf(stateF, cs["CoreEmpty"])
-	f2, g2, m2 := sweepOf(colorF, -1)
+	f1, g1, m1 := sweepOf("state", cs["CoreEmpty"])
+	f2, g2, m2 := sweepOf("color", -1)
 	if !f1 && !f2 {
 		return false, "" // not the reset routine
 	}
